@@ -193,6 +193,8 @@ Section Proofs.
         unfold gs_c in Hj. cbn in Hj. destruct (N.leb_spec 0 j); [discriminate|lia].
       + now apply gs_c_app.
     - intros E0. rewrite (get_string_Inv s' 0 I'), C, E0. cbn [N.eqb]. f_equal.
+      change ([0] ++ str ++ [0]) with ([] ++ [] ++ 0 :: (str ++ [0])).
+      change 0 with (lenN (@nil N)) at 1. apply gs_c_new. apply Forall_nil.
     - rewrite S', Ei. lia.
   Qed.
 
